@@ -145,12 +145,12 @@ func (rn *runner) build(fs *fileSet, dir string, worker int) (*proc.Server, *mod
 	for k, v := range fs.extra {
 		extra[k] = append(extra[k], v...)
 	}
-	s := proc.New(proc.Config{Bin: rn.bin, Dir: dir, IP: proc.IP(3, worker), FS: true, FSMatch: "/data/", Extra: extra})
+	s := proc.New(proc.Config{BGOff: true, Bin: rn.bin, Dir: dir, IP: proc.IP(3, worker), FS: true, FSMatch: "/data/", Extra: extra})
 	if err := s.Start(); err != nil {
 		c.Broken("start: %v", err)
 		return nil, nil, false
 	}
-	if err := s.WaitReady(90 * time.Second); err != nil {
+	if err := s.WaitReady(180 * time.Second); err != nil {
 		c.Broken("build: %v", err)
 		s.Kill()
 		return nil, nil, false
@@ -587,7 +587,7 @@ func main() {
 	})
 	// crash positions
 	r := c.Rand(999)
-	exhaustiveLeft := map[string]int{"level": c.Pick(1, 4), "full": c.Pick(0, 3), "merge": c.Pick(1, 4)}
+	exhaustiveLeft := map[string]int{"level": c.Pick(1, 4), "full": c.Pick(0, 3), "merge": c.Pick(0, 4)}
 	caseNo := 0
 	total := 0
 	for _, p := range plans {
@@ -599,7 +599,7 @@ func main() {
 			}
 			c.Count("reorganisations-enumerated-exhaustively:"+p.kind, 1)
 		} else {
-			n := c.Pick(2, 6)
+			n := c.Pick(5, 10)
 			for i := 0; i < n; i++ {
 				ks = append(ks, 1+r.Int64N(p.m))
 			}
